@@ -239,7 +239,8 @@ def run(ctx):
     ctx.exhaustive.append('all %d operation sequences of length <= %d over %d atomic operations on keys A/a/b' % (len(small), ctx.n(4, 5), len(atoms)))
     fails = ctx.prop('prop:history', hist + small + [('file', '', [['len'], ['todict']]), ('text', '', [['len']])], p_history)
     ctx.stream('prop:history')['history_length_histogram'] = lens
-    names = CONTROL_NAMES + ['a', 'a-b-c', 'x--y', 'md5sum-sha1', 'SHA256-x', 'foo-MD5SUM', '-', 'A1-b2']
+    names = CONTROL_NAMES + ['a', 'a-b-c', 'x--y', 'md5sum-sha1', 'SHA256-x', 'foo-MD5SUM', '-', 'A1-b2', 'X-3dfx-Support',
+                             'Original_maintainer', 'a1b-c2d', 'x.y-z', "o'neil-x", 'sha1sum', '3com-driver']
     ctx.exhaustive.append('every known control field name in four casings through normalize_control_field_name')
     fails += ctx.prop('prop:normalize', names, p_normalize)
     typed = []
